@@ -89,8 +89,15 @@ def build_inputs(root, rnd, tier):
         with open(os.path.join(root, rel), "wb") as f:
             f.write(rbytes(rnd, size))
         os.utime(os.path.join(root, rel), (1_700_000_000, 1_700_000_000))
+    # many tiny followers behind the slow first items (seeded C19-4: a reorder buffer that gives up waiting for an early
+    # slow item once more than 64 later results are queued)
+    os.makedirs(os.path.join(root, "src", "many"))
+    for i in range(72):
+        with open(os.path.join(root, "src", "many", "k%03d" % i), "wb") as f:
+            f.write(rbytes(rnd, i % 7))
+        os.utime(os.path.join(root, "src", "many", "k%03d" % i), (1_700_000_000, 1_700_000_000))
     explicit = [rel for rel, _ in files] + ["src/link"]
-    return explicit, explicit + ["src/sub"]
+    return explicit, explicit + ["src/sub", "src/many"]
 
 
 def hardlink_archive(root, rnd):
